@@ -278,7 +278,7 @@ pub fn run(ctx: &mut Ctx) {
     ctx.require_class("token_lists", "empty_list", cases / 100);
     ctx.extra.insert("exhaustive_over".into(), json!("all 3,796 well-formed tokens x the listed weight literals"));
     if ctx.tier == Tier::Thorough && !ctx.failed() {
-        crate::fuzzrun::campaign(ctx, "fz_notation", 40000, 16, 256);
+        crate::fuzzrun::campaign(ctx, "fz_notation", 3000, 16, 256);
     }
 }
 
